@@ -1263,6 +1263,11 @@ func retVal(ret *ssa.Return, idx int) ssa.Value {
 // deepOrigins: origins of v, descending into the results of repository functions and closures (also through named
 // results, which SSA spills into locals) up to the given depth.
 func (c *Ctx) deepOrigins(v ssa.Value, depth int) []Origin {
+	return c.deepOriginsStop(v, depth, nil)
+}
+
+// deepOriginsStop: as deepOrigins, but a call whose callee satisfies stop is kept as an origin (not descended into).
+func (c *Ctx) deepOriginsStop(v ssa.Value, depth int, stop func(callee string) bool) []Origin {
 	var out []Origin
 	for _, o := range c.origins(v) {
 		call, _ := o.Val.(*ssa.Call)
@@ -1270,7 +1275,7 @@ func (c *Ctx) deepOrigins(v ssa.Value, depth int) []Origin {
 		if o.Kind == "call" && call != nil {
 			g = staticCallee(&call.Call)
 		}
-		if g == nil || g.Blocks == nil || depth <= 0 || !strings.HasPrefix(fnPkgPath(g), modPath) {
+		if g == nil || g.Blocks == nil || depth <= 0 || !strings.HasPrefix(fnPkgPath(g), modPath) || (stop != nil && stop(o.Callee)) {
 			out = append(out, o)
 			continue
 		}
@@ -1288,7 +1293,7 @@ func (c *Ctx) deepOrigins(v ssa.Value, depth int) []Origin {
 							if _, isConst := st.Val.(*ssa.Const); isConst {
 								continue
 							}
-							out = append(out, c.deepOrigins(st.Val, depth-1)...)
+							out = append(out, c.deepOriginsStop(st.Val, depth-1, stop)...)
 							descended = true
 						}
 					}
@@ -1298,7 +1303,7 @@ func (c *Ctx) deepOrigins(v ssa.Value, depth int) []Origin {
 			if _, isConst := res.(*ssa.Const); isConst {
 				continue
 			}
-			out = append(out, c.deepOrigins(res, depth-1)...)
+			out = append(out, c.deepOriginsStop(res, depth-1, stop)...)
 			descended = true
 		}
 		if !descended {
